@@ -64,7 +64,7 @@ func drawFault(rng *rand.Rand, crashOnly bool) verifsim.Fault {
 	return f
 }
 
-var corruptKinds = []string{"delete", "garbage", "trunc-body", "append-junk", "stale-keep"}
+var corruptKinds = []string{"delete", "garbage", "trunc-body", "append-junk", "stale-keep", "nul-body"}
 
 // DrawHistory draws one history: an initial generation, then disturbances (input edits,
 // corrupted or torn outputs, crashed or failing runs, relocation) each followed by a
@@ -336,7 +336,7 @@ func CorruptEveryOutput(rng *rand.Rand, lopts LayoutOpts, nOutputs int) []*Histo
 	kinds := []struct {
 		how string
 		m   int
-	}{{"delete", 0}, {"garbage", 0}, {"trunc-body", 0}, {"trunc-body", 1}, {"trunc-body", 9}, {"trunc-body", 60}, {"trunc-header", 0}, {"trunc-header", 30}, {"trunc-header", 70}, {"append-junk", 0}}
+	}{{"delete", 0}, {"garbage", 0}, {"trunc-body", 0}, {"trunc-body", 1}, {"trunc-body", 9}, {"trunc-body", 60}, {"trunc-header", 0}, {"trunc-header", 30}, {"trunc-header", 70}, {"append-junk", 0}, {"nul-body", 0}}
 	for k := 0; k < nOutputs; k++ {
 		for _, kd := range kinds {
 			for _, age := range []string{"", "fresh"} {
